@@ -38,17 +38,72 @@ def mkV (tab : List (List Nat × List Nat × List Nat × Option Exn)) (vid sig s
   | some (_, _, _, some e) => .error e
   | none => .error .typeError
 
-/-- sign table `((#vid #ser #sig) …)` -/
-def parseStab (xs : List Sexp) : Option (List (List Nat × List Nat × List Nat)) :=
+/-- outcome of a decoder: `(ok #raw [code])` or `(err Name)` -/
+def parseDec (xs : List Sexp) : Option (List (List Nat × Except Exn (List Nat × Nat))) :=
   xs.mapM fun
-    | .list [v, m, s] => do
-      let v ← bytes? v; let m ← bytes? m; let s ← bytes? s
-      some (v, m, s)
+    | .list [k, .list [.atom "ok", r]] => do
+      let k ← bytes? k; let r ← bytes? r
+      some (k, .ok (r, 0))
+    | .list [k, .list [.atom "ok", r, c]] => do
+      let k ← bytes? k; let r ← bytes? r; let c ← nat? c
+      some (k, .ok (r, c))
+    | .list [k, .list [.atom "err", .atom n]] => do
+      let k ← bytes? k
+      some (k, .error (exnOfName n))
     | _ => none
 
-def mkSign (tab : List (List Nat × List Nat × List Nat)) (vid ser : List Nat) : Except Exn (List Nat) :=
+def lookDec (tab : List (List Nat × Except Exn (List Nat × Nat))) (k : List Nat) : Except Exn (List Nat × Nat) :=
+  match tab.find? (fun x => x.1 == k) with
+  | some (_, r) => r
+  | none => .error .typeError
+
+def parseKeep (xs : List Sexp) : Option (List (List Nat × List Nat)) :=
+  xs.mapM fun
+    | .list [v, q] => do
+      let v ← bytes? v; let q ← bytes? q
+      some (v, q)
+    | _ => none
+
+/-- `((#key #rawsig #ser t|f) …)` -/
+def parseChk (xs : List Sexp) : Option (List (List Nat × List Nat × List Nat × Bool)) :=
+  xs.mapM fun
+    | .list [k, s, m, b] => do
+      let k ← bytes? k; let s ← bytes? s; let m ← bytes? m; let b ← bool? b
+      some (k, s, m, b)
+    | _ => none
+
+/-- the verify function of the model, from the receiver's keep and the tables of the third-party parts -/
+def mkVerify (fs : List Sexp) : Option (List Nat → List Nat → List Nat → Except Exn Unit) := do
+  let keep ← field "keep" fs >>= parseKeep
+  let dvid ← field "dvid" fs >>= parseDec
+  let dqvk ← field "dqvk" fs >>= parseDec
+  let dsgn ← field "dsgn" fs >>= parseDec
+  let chk ← field "chk" fs >>= parseChk
+  let P : VerifyParts := {
+    decVID := lookDec dvid,
+    decQVK := fun q => (lookDec dqvk q).map (·.1),
+    decSGN := fun s => (lookDec dsgn s).map (·.1),
+    check := fun k s m => match chk.find? (fun x => x.1 == k && x.2.1 == s && x.2.2.1 == m) with
+      | some (_, _, _, b) => b
+      | none => false }
+  some (verifyM P keep)
+
+/-- sign table `((#vid #ser #sig) …)` -/
+def parseStab (xs : List Sexp) : Option (List (List Nat × List Nat × Except Exn (List Nat))) :=
+  xs.mapM fun
+    | .list [v, m, .list [.atom "err", .atom n]] => do
+      let v ← bytes? v; let m ← bytes? m
+      some (v, m, .error (exnOfName n))
+    | .list [v, m, s] => do
+      let v ← bytes? v; let m ← bytes? m; let s ← bytes? s
+      some (v, m, .ok s)
+    | _ => none
+
+/-- `Memoer.sign` as recorded from the real run: the signature, or the exception it raised (no key for that vid in the keep);
+a (vid, ser) the real run never signed raises `TypeError` (never matches) -/
+def mkSign (tab : List (List Nat × List Nat × Except Exn (List Nat))) (vid ser : List Nat) : Except Exn (List Nat) :=
   match tab.find? (fun (v, m, _) => v == vid && m == ser) with
-  | some (_, _, s) => .ok s
+  | some (_, _, s) => s
   | none => .error .typeError
 
 def parseBatch (xs : List Sexp) : Option (List (List Nat × Nat)) :=
@@ -63,16 +118,57 @@ def outEntry (e : Entry) : Sexp :=
 
 def outMemo (m : Memo) : Sexp := .list [ofBytes m.text, ofNat m.src, ofOptBytes m.vid]
 
-/-- run the batches one `serviceAllRx()` at a time, reporting after each: delivered memos, entries, queue length -/
+/-- receive-side history.  `all b` = datagrams `b` arrive, then `serviceAllRx()` (or `service()`, the same on the receive side);
+`once b` = datagrams arrive, then `serviceAllRxOnce()`; `close` / `reopen` = `.close()` / `.reopen()`: while closed nothing is taken
+from the transport but the fuse pass and the inbox move still run. -/
+inductive RxOp
+  | all (b : List (List Nat × Nat))
+  | once (b : List (List Nat × Nat))
+  | rxg (b : List (List Nat × Nat))     -- serviceReceives() + serviceRxGrams(): fused memos stay pending in .rxms
+  | close
+  | reopen
+
+def parseOp : Sexp → Option RxOp
+  | .atom "close" => some .close
+  | .atom "reopen" => some .reopen
+  | .list [.atom "once", .list b] => (parseBatch b).map RxOp.once
+  | .list [.atom "all", .list b] => (parseBatch b).map RxOp.all
+  | .list [.atom "rxg", .list b] => (parseBatch b).map RxOp.rxg
+  | _ => none
+
+/-- reported after each service call: memos that reached the inbox, entries, transport queue length, fused memos still pending in `.rxms` -/
 def rxRun (authic : Bool) (V : List Nat → List Nat → List Nat → Except Exn Unit) :
-    List (List (List Nat × Nat)) → List Entry → List (List Nat × Nat) → List Sexp
-  | [], _, _ => []
-  | b :: bs, es, q =>
-    match serviceAllRx authic V es (q ++ b) with
+    List RxOp → Bool → List Entry → List (List Nat × Nat) → List Memo → List Sexp
+  | [], _, _, _, _ => []
+  | .close :: bs, _, es, q, pend => rxRun authic V bs false es q pend
+  | .reopen :: bs, _, es, q, pend => rxRun authic V bs true es q pend
+  | .once b :: bs, opened, es, q, pend =>
+    let q1 := q ++ b
+    let res := if opened then serviceAllRxOnce authic V es q1 pend
+      else match serviceAllRxOnce authic V es [] pend with
+        | .ok (e2, _, p2, d2) => .ok (e2, q1, p2, d2)
+        | .error e => .error e
+    match res with
+    | .error e => [tag "escape" [sym (exnName e)]]
+    | .ok (es2, q2, pend2, dl) =>
+      .list [tag "delivered" (dl.map outMemo), tag "entries" (es2.map outEntry), tag "queue" [ofNat q2.length], tag "pending" [ofNat pend2.length]]
+        :: rxRun authic V bs opened es2 q2 pend2
+  | .rxg b :: bs, opened, es, q, pend =>
+    let q1 := q ++ b
+    match serviceAllRx authic V es (if opened then q1 else []) with
     | .error e => [tag "escape" [sym (exnName e)]]
     | .ok o =>
-      .list [tag "delivered" (o.delivered.map outMemo), tag "entries" (o.entries.map outEntry), tag "queue" [ofNat o.queue.length]]
-        :: rxRun authic V bs o.entries o.queue
+      let q2 := if opened then o.queue else q1
+      .list [tag "delivered" [], tag "entries" (o.entries.map outEntry), tag "queue" [ofNat q2.length], tag "pending" [ofNat (pend ++ o.delivered).length]]
+        :: rxRun authic V bs opened o.entries q2 (pend ++ o.delivered)
+  | .all b :: bs, opened, es, q, pend =>
+    let q1 := q ++ b
+    match serviceAllRx authic V es (if opened then q1 else []) with
+    | .error e => [tag "escape" [sym (exnName e)]]
+    | .ok o =>
+      let q2 := if opened then o.queue else q1
+      .list [tag "delivered" ((pend ++ o.delivered).map outMemo), tag "entries" (o.entries.map outEntry), tag "queue" [ofNat q2.length], tag "pending" [ofNat 0]]
+        :: rxRun authic V bs opened o.entries q2 []
 
 def parseSend : Sexp → Option SendRes
   | .list [.atom "a", n] => (nat? n).map SendRes.accept
@@ -95,21 +191,62 @@ def outTx (st : Tx) : Sexp :=
   .list [tag "txgs" (st.txgs.map fun (g, d) => .list [ofBytes g, ofNat d]), tag "txb" [ofBytes st.txb], tag "dst" [ofOpt ofNat st.txdst]]
 
 /-- calls: `g` = serviceTxGrams, `o` = serviceTxGramsOnce, `(q #gram dst)` = gramit -/
-def txRun : List Sexp → Tx → List SendRes → List Sexp
-  | [], st, _ => [tag "final" [outTx st]]
-  | c :: cs, st, sc =>
+def txRun : List Sexp → Bool → Tx → List SendRes → List Sexp
+  | [], _, st, _ => [tag "final" [outTx st]]
+  | c :: cs, opened, st, sc =>
     match c with
     | .list [.atom "q", g, d] =>
       match bytes? g, nat? d with
-      | some g, some d => txRun cs { st with txgs := st.txgs ++ [(g, d)] } sc
+      | some g, some d => txRun cs opened { st with txgs := st.txgs ++ [(g, d)] } sc
       | _, _ => [sym "bad-request"]
+    | .atom "c" => txRun cs false st sc        -- .close(): service calls do nothing until .reopen(); queue and remainder are kept
+    | .atom "r" => txRun cs true st sc
     | .atom k =>
-      let r := serviceCall (k == "g") st sc
-      let line := tag "call" (r.evs.map outEv)
-      match r.escaped with
-      | some e => [line, tag "escape" [sym (exnName e), outTx r.st]]
-      | none => line :: txRun cs r.st r.script
+      if !opened then tag "call" [] :: txRun cs opened st sc
+      else
+        let r := serviceCall (k == "g") st sc
+        let line := tag "call" (r.evs.map outEv)
+        match r.escaped with
+        | some e => [line, tag "escape" [sym (exnName e), outTx r.st]]
+        | none => line :: txRun cs opened r.st r.script
     | _ => [sym "bad-request"]
+
+/-- socket-level view of the send calls of a PeerMemoer: event `j` (counted over the whole history) shows what the socket script said -/
+def outEvP (raw : List SockRes) (j : Nat) (e : TxEv) : Sexp :=
+  .list [ofNat e.dst, ofBytes e.offered,
+    match raw[j]? with
+    | some (.sent n) => .list [sym "a", ofNat (min n e.offered.length)]
+    | some (.errno x) => .list [sym "e", ofNat x]
+    | none => .list [sym "a", ofNat e.offered.length]]
+
+def outEvsP (raw : List SockRes) : Nat → List TxEv → List Sexp
+  | _, [] => []
+  | j, e :: es => outEvP raw j e :: outEvsP raw (j + 1) es
+
+def txRunP (raw : List SockRes) : Nat → List Sexp → Bool → Tx → List SendRes → List Sexp
+  | _, [], _, st, _ => [tag "final" [outTx st]]
+  | j, c :: cs, opened, st, sc =>
+    match c with
+    | .list [.atom "q", g, d] =>
+      match bytes? g, nat? d with
+      | some g, some d => txRunP raw j cs opened { st with txgs := st.txgs ++ [(g, d)] } sc
+      | _, _ => [sym "bad-request"]
+    | .atom "c" => txRunP raw j cs false st sc
+    | .atom "r" => txRunP raw j cs true st sc
+    | .atom k =>
+      if !opened then tag "call" [] :: txRunP raw j cs opened st sc
+      else
+        let r := serviceCall (k == "g") st sc
+        let line := tag "call" (outEvsP raw j r.evs)
+        match r.escaped with
+        | some e => [line, tag "escape" [sym (exnName e), outTx r.st]]
+        | none => line :: txRunP raw (j + r.evs.length) cs opened r.st r.script
+    | _ => [sym "bad-request"]
+
+def parseSock : Sexp → Option SockRes
+  | .list [.atom "a", n] => (nat? n).map SockRes.sent
+  | .list [.atom "e", n] => (nat? n).map SockRes.errno
+  | _ => none
 
 def outGrams (r : Except Exn (List (List Nat))) : Sexp :=
   match r with
@@ -142,17 +279,58 @@ def parseSetter : Sexp → Option Setter
   | .list [.atom "size", n] => (nat? n).map Setter.size
   | _ => none
 
-def e2eRun (cfg : TxCfg) (authic : Bool) (vid : Option (List Nat)) (stab : List (List Nat × List Nat × List Nat))
-    (vtab : List (List Nat × List Nat × List Nat × Option Exn)) (memos : List (List Nat × List Nat × Nat))
-    (sched : List (List (Nat × Nat × Option Nat))) : Sexp :=
-  let rs : List (Except Exn (List (List Nat))) := memos.map fun (tm : List Nat × List Nat × Nat) => rend cfg (mkSign stab) tm.1 vid tm.2.1
+inductive SchedOp
+  | all (b : List (Nat × Nat × Option Nat))
+  | once (b : List (Nat × Nat × Option Nat))
+  | rxg (b : List (Nat × Nat × Option Nat))
+  | close
+  | reopen
+
+def parseSchedOp : Sexp → Option SchedOp
+  | .atom "close" => some .close
+  | .atom "reopen" => some .reopen
+  | .list [.atom "once", b] => (parseSched b).map SchedOp.once
+  | .list [.atom "all", b] => (parseSched b).map SchedOp.all
+  | .list [.atom "rxg", b] => (parseSched b).map SchedOp.rxg
+  | _ => none
+
+/-- memo `(#text #mid src)` or `(#text #mid src (setter…))`: the setters are assigned on the live sender just before this memo is rent -/
+def parseMemoS : Sexp → Option (List Nat × List Nat × Nat × List Setter)
+  | .list [t, m, s] => do
+    let t ← bytes? t; let m ← bytes? m; let s ← nat? s
+    some (t, m, s, [])
+  | .list [t, m, s, .list ss] => do
+    let t ← bytes? t; let m ← bytes? m; let s ← nat? s; let ss ← ss.mapM parseSetter
+    some (t, m, s, ss)
+  | _ => none
+
+/-- rend the memos one after the other on the same sender, re-configuring in between -/
+def rendAll (sign : List Nat → List Nat → Except Exn (List Nat)) (vid : Option (List Nat)) :
+    TxCfg → List (List Nat × List Nat × Nat × List Setter) → List (Except Exn (List (List Nat))) × TxCfg
+  | cfg, [] => ([], cfg)
+  | cfg, (t, m, _, ss) :: rest =>
+    let cfg' := applySettersSkip cfg ss
+    let r := rend cfg' sign t vid m
+    let (rs, cf) := rendAll sign vid cfg' rest
+    (r :: rs, cf)
+
+def e2eRun (cfg : TxCfg) (authic : Bool) (vid : Option (List Nat)) (sign : List Nat → List Nat → Except Exn (List Nat))
+    (V : List Nat → List Nat → List Nat → Except Exn Unit) (memos : List (List Nat × List Nat × Nat × List Setter))
+    (sched : List SchedOp) : Sexp :=
+  let (rs, cfgEnd) := rendAll sign vid cfg memos
   let pick1 : Nat × Nat × Option Nat → Option (List Nat × Nat) := fun p =>
     match rs[p.1]?, memos[p.1]? with
     | some (.ok gs), some tm =>
-      if gs.isEmpty then none else (gs[p.2.1 % gs.length]?).map fun g => (g, p.2.2.getD tm.2.2)
+      if gs.isEmpty then none else (gs[p.2.1 % gs.length]?).map fun g => (g, p.2.2.getD tm.2.2.1)
     | _, _ => none
-  let batches : List (List (List Nat × Nat)) := sched.map fun (b : List (Nat × Nat × Option Nat)) => b.filterMap pick1
-  Sexp.list [tag "cfg" [ofBytes cfg.code, ofBool cfg.curt, ofNat cfg.size], tag "rend" (rs.map outGrams), tag "rx" (rxRun authic (mkV vtab) batches [] [])]
+  let ops : List RxOp := sched.map fun
+    | .all b => RxOp.all (b.filterMap pick1)
+    | .once b => RxOp.once (b.filterMap pick1)
+    | .rxg b => RxOp.rxg (b.filterMap pick1)
+    | .close => RxOp.close
+    | .reopen => RxOp.reopen
+  Sexp.list [tag "cfg" [ofBytes cfgEnd.code, ofBool cfgEnd.curt, ofNat cfgEnd.size], tag "rend" (rs.map outGrams),
+    tag "rx" (rxRun authic V ops true [] [] [])]
 
 def handle (req : Sexp) : Sexp :=
   match req with
@@ -163,14 +341,23 @@ def handle (req : Sexp) : Sexp :=
       let script ← field "script" fs
       let script ← script.mapM parseSend
       let calls ← field "calls" fs
-      some (Sexp.list (txRun calls ⟨grams, [], none⟩ script))).getD (sym "bad-request")
+      some (Sexp.list (txRun calls true ⟨grams, [], none⟩ script))).getD (sym "bad-request")
+  | .list (.atom "txp" :: fs) =>
+    (do
+      let kind ← (field1 "peer" fs) >>= sym?
+      let k := if kind == "udp" then PeerKind.udp else PeerKind.uxd
+      let grams ← field "grams" fs
+      let grams ← parseBatch grams
+      let script ← field "script" fs
+      let raw ← script.mapM parseSock
+      let calls ← field "calls" fs
+      some (Sexp.list (txRunP raw 0 calls true ⟨grams, [], none⟩ (raw.map (peerSend k))))).getD (sym "bad-request")
   | .list (.atom "rx" :: fs) =>
     (do
       let authic ← (field1 "authic" fs) >>= bool?
-      let vtab ← field "vtab" fs >>= parseVtab
-      let batches ← field "batches" fs
-      let batches ← batches.mapM fun b => list? b >>= parseBatch
-      some (Sexp.list (rxRun authic (mkV vtab) batches [] []))).getD (sym "bad-request")
+      let V ← mkVerify fs
+      let ops ← field "batches" fs >>= fun bs => bs.mapM parseOp
+      some (Sexp.list (rxRun authic V ops true [] [] []))).getD (sym "bad-request")
   | .list (.atom "e2e" :: fs) =>
     (do
       let code ← (field1 "code" fs) >>= bytes?
@@ -179,14 +366,14 @@ def handle (req : Sexp) : Sexp :=
       let authic ← (field1 "authic" fs) >>= bool?
       let vid ← (field1 "vid" fs) >>= optBytes?
       let stab ← field "stab" fs >>= parseStab
-      let vtab ← field "vtab" fs >>= parseVtab
+      let V ← mkVerify fs
       let memos ← field "memos" fs
-      let memos ← memos.mapM parseMemo
+      let memos ← memos.mapM parseMemoS
       let sched ← field "sched" fs
-      let sched ← sched.mapM parseSched
+      let sched ← sched.mapM parseSchedOp
       let hist ← (field "hist" fs).getD [] |>.mapM parseSetter
-      match (mkCfg code curt size).bind (fun c => applySetters c hist) with
-      | .ok cfg => some (e2eRun cfg authic vid stab vtab memos sched)
+      match mkCfg code curt size with
+      | .ok cfg => some (e2eRun (applySettersSkip cfg hist) authic vid (mkSign stab) V memos sched)
       | .error e => some (Sexp.list [tag "cfg-raise" [sym (exnName e)]])).getD (sym "bad-request")
   | _ => sym "bad-request"
 
